@@ -4,6 +4,12 @@ From Coq Require Import ZArith Bool.
 From MZ.gen Require Import GenZlib.
 From MZ.spec Require Import Zlib.
 From MZ.proofs Require Import ZlibHeader.
+From Coq Require Import NArith List.
+From MZ.lib Require Arr Mach.
+From MZ.spec Require Adler.
+From MZ.model Require InflateCore.
+From MZ.proofs Require StoredSpec InflateStoredZ.
+Import ListNotations.
 Local Open Scope Z_scope.
 
 (* The header the compressor writes, for every flag word and every window_bits value the
@@ -34,3 +40,36 @@ Proof. exact validate_zlib_header_spec. Qed.
 (* non-vacuity: the most common header 78 9C is accepted, 78 9D is not *)
 Example C09_accepts_789c : valid_header 120 156 = true. Proof. reflexivity. Qed.
 Example C09_rejects_789d : valid_header 120 157 = false. Proof. reflexivity. Qed.
+
+(* The trailer, for zlib-framed streams of stored blocks (the language level 0 emits): the decoder model
+   M_inf reports Done exactly when the four trailer bytes are the big-endian Adler-32 of the payload (or
+   the caller switched checking off) and Adler32Mismatch otherwise; either way the whole stream is consumed
+   and the payload delivered.  Full statement (every DEFLATE body) is open, decided per explored run. *)
+Theorem C09_trailer_checked_on_stored_streams_partial :
+  forall flags cmf flg A chunks last o res,
+  (InflateCore.has flags InflateCore.F_ZLIB = true -> InflateCore.has flags InflateCore.F_STOPBB = false ->
+   InflateCore.has flags InflateCore.F_NONWRAP = true ->
+   cmf < 256 -> flg < 256 -> valid_header (Z.of_N cmf) (Z.of_N flg) = true -> A < 2 ^ 32 ->
+   StoredSpec.chunks_ok chunks -> StoredSpec.bytes_ok last -> N.of_nat (length last) <= 65535 ->
+   N.of_nat (length (concat chunks ++ last)) <= Arr.alen o -> Arr.alen o <= Mach.USIZE_MAX ->
+   let data := (concat chunks ++ last)%list in
+   let input := (cmf :: flg :: StoredSpec.stored_stream chunks last ++ StoredSpec.be32 A)%list in
+   InflateCore.decompress InflateCore.dec_default input o 0 Mach.USIZE_MAX flags = Mach.Ret res ->
+   InflateCore.cr_status res
+   = (if orb (InflateCore.has flags InflateCore.F_IGNORE) (Adler.adler32 1 data =? A)
+      then InflateCore.Done else InflateCore.Adler32Mismatch) /\
+   InflateCore.cr_in res = N.of_nat (length input) /\
+   InflateCore.cr_out res = N.of_nat (length data) /\
+   Arr.aget_list (InflateCore.cr_buf res) 0 (InflateCore.cr_out res) = data)%N.
+Proof. exact InflateStoredZ.decompress_zlib_stored_stream. Qed.
+
+(* non-vacuity: header 78 01, blocks "abc" / "de", right and wrong trailer *)
+Example C09_trailer_right_and_wrong :
+  let body := StoredSpec.stored_stream [[97; 98; 99]%N]%list [100; 101]%N%list in
+  let A := Adler.adler32 1 [97; 98; 99; 100; 101]%N%list in
+  match InflateCore.decompress InflateCore.dec_default ((120%N :: 1%N :: body ++ StoredSpec.be32 A)%list) (Arr.amake 5 0) 0 Mach.USIZE_MAX 5,
+        InflateCore.decompress InflateCore.dec_default ((120%N :: 1%N :: body ++ StoredSpec.be32 (A + 1)%N)%list) (Arr.amake 5 0) 0 Mach.USIZE_MAX 5 with
+  | Mach.Ret r1, Mach.Ret r2 => InflateCore.cr_status r1 = InflateCore.Done /\ InflateCore.cr_status r2 = InflateCore.Adler32Mismatch
+  | _, _ => False
+  end.
+Proof. vm_compute. split; reflexivity. Qed.
